@@ -240,3 +240,171 @@ Example C17_nonvacuous_mixture :
   | None => false
   end = true.
 Proof. by vm_compute. Qed.
+
+(* ================================================================================================ *)
+(* Extension (round 3)                                                                              *)
+(* ================================================================================================ *)
+From Verif Require Import SparseKDEBP SparseKDEH SparseKDEHP.
+Local Open Scope ring_scope.
+
+(* ---- bandwidths: the proviso of the statement discharges every hypothesis on the covariance ------ *)
+
+(* the weighted Gram matrix both branches of _covariance end with (mexp program gram_prog; variables
+   0 := the displacements xxm from WHATEVER centre, wrapped into the cell or not, 1 := local weights)
+   is symmetric, positive semi-definite, and has positive trace as soon as one point of positive
+   weight is displaced.  This covers the periodic branch: nothing is assumed about its circular mean. *)
+Theorem C17_covariance_psd_any_centre :
+  forall (F : rcfType) (n D : nat) (env : env_mx F),
+    (eval_mx env (gram_prog n D))^T = eval_mx env (gram_prog n D) /\
+    ((forall i : 'I_n, 0 <= eval_mx env (cp_p n) i ord0) -> 0 < eval_mx env (cp_c n) ord0 ord0 ->
+     psd (eval_mx env (gram_prog n D)) /\
+     forall i : 'I_n, 0 < eval_mx env (cp_p n) i ord0 -> row i (env n D 0%N) != 0 ->
+       0 < \tr (eval_mx env (gram_prog n D))).
+Proof. exact covariance_psd_any_centre. Qed.
+Print Assumptions C17_covariance_psd_any_centre.
+
+(* free space, from the raw local weights and the grid positions alone: non-negative local weights,
+   two grid points of positive local weight at DIFFERENT positions ("the localisation reaches at least
+   one other grid point"), at least two dimensions, a positive Silverman factor (an exponential):
+   the bandwidth is symmetric positive definite, for every local population and effective dimension.
+   No hypothesis on the covariance (PSD, trace) is left. *)
+Theorem C17_bandwidth_spd_reach :
+  forall (F : rcfType) (n D : nat) (envC envO : env_mx F) (i0 j0 : 'I_n),
+    (forall i, 0 <= (envC n 1%N 1%N) i ord0) ->
+    0 < (envC n 1%N 1%N) i0 ord0 -> 0 < (envC n 1%N 1%N) j0 ord0 ->
+    row i0 (envC n D 0%N) != row j0 (envC n D 0%N) ->
+    envO D D 0%N = eval_mx envC (cov_prog n D) ->
+    (2 <= D)%N -> 0 < (envO 1%N 1%N 2%N) ord0 ord0 ->
+    (eval_mx envO (oas_prog D))^T = eval_mx envO (oas_prog D) /\ pd (eval_mx envO (oas_prog D)).
+Proof. exact bandwidth_spd_reach. Qed.
+Print Assumptions C17_bandwidth_spd_reach.
+
+(* with a cell: the local covariance is gram_prog on the wrapped displacements from the circular mean
+   (variable 0 of envC), whatever that mean is: two positive local weights and one reached grid point
+   that does not sit on the centre make the bandwidth symmetric positive definite *)
+Theorem C17_bandwidth_spd_periodic :
+  forall (F : rcfType) (n D : nat) (envC envO : env_mx F) (i0 j0 k0 : 'I_n),
+    (forall i, 0 <= (envC n 1%N 1%N) i ord0) -> i0 != j0 ->
+    0 < (envC n 1%N 1%N) i0 ord0 -> 0 < (envC n 1%N 1%N) j0 ord0 ->
+    0 < (envC n 1%N 1%N) k0 ord0 -> row k0 (envC n D 0%N) != 0 ->
+    envO D D 0%N = eval_mx envC (gram_prog n D) ->
+    (2 <= D)%N -> 0 < (envO 1%N 1%N 2%N) ord0 ord0 ->
+    (eval_mx envO (oas_prog D))^T = eval_mx envO (oas_prog D) /\ pd (eval_mx envO (oas_prog D)).
+Proof. exact bandwidth_spd_periodic. Qed.
+Print Assumptions C17_bandwidth_spd_periodic.
+
+(* non-vacuity of C17_bandwidth_spd_reach over every real closed field: three grid points in the
+   plane, (0,0), (1,0), (0,1), unit local weights, unit Silverman factor *)
+Example C17_nonvacuous_reach :
+  forall F : rcfType, exists (envC : env_mx F) (i0 j0 : 'I_3),
+    (forall i, 0 <= (envC 3%N 1%N 1%N) i ord0) /\
+    0 < (envC 3%N 1%N 1%N) i0 ord0 /\ 0 < (envC 3%N 1%N 1%N) j0 ord0 /\
+    row i0 (envC 3%N 2%N 0%N) != row j0 (envC 3%N 2%N 0%N).
+Proof.
+  move=> F.
+  exists (fun (m n k : nat) => if k is 0%N then \matrix_(i, j) (((i : nat) == (j : nat).+1)%:R)
+                               else const_mx 1).
+  exists ord0, (lift ord0 ord0).
+  split; first by move=> i; rewrite mxE ler01.
+  split; first by rewrite mxE ltr01.
+  split; first by rewrite mxE ltr01.
+  apply/eqP => /rowP /(_ ord0). rewrite !mxE /=. move/eqP. by rewrite eq_sym oner_eq0.
+Qed.
+
+(* ---- translation in free space ------------------------------------------------------------------- *)
+(* score_samples depends on the positions only through differences: adding one vector t to every grid
+   point, every descriptor and the query changes nothing, for the same fitted weights, member lists,
+   inverse bandwidths and normalisations (rows no longer than t, i.e. of the dimension of t).
+   With C17_translation_assignment (labels, member lists, grid weights unchanged) this leaves the
+   bandwidths as the only part of the invariance clause without a theorem. *)
+Theorem C17_translation_mixture :
+  forall (F : rcfType) (fexp flog frnd : F -> F) (G D : seq (seq F)) (w W : seq F)
+         (mem : seq (seq nat)) (Hinv : seq (seq (seq F))) (nk : seq F) (dim : BinNums.Z) (t : seq F),
+    (forall r, List.In r G -> (size r <= size t)%N) ->
+    (forall r, List.In r D -> (size r <= size t)%N) ->
+    forall x : seq F,
+    score_point (rops fexp flog frnd) None (List.map (vaddF t) G) (List.map (vaddF t) D) w W mem
+                Hinv nk dim (vaddF t x)
+    = score_point (rops fexp flog frnd) None G D w W mem Hinv nk dim x.
+Proof. exact score_point_translate. Qed.
+Print Assumptions C17_translation_mixture.
+
+(* ---- the estimator OBJECT: histories of calls (Model/SparseKDEH.v) --------------------------------- *)
+(* [krun fitf invf nkf needs_nk scoref peekf (kinit p) ops] runs the operations ops (OFit g = fit(g);
+   OScore q = score_samples(q)/score(q); OPeek = reading bandwidth_/_sample_weights; OSet p' =
+   assigning the public attributes) on an object constructed with parameters p, for ARBITRARY
+   functions computing a fit, the cached inverse bandwidths / normalisations, and the score. *)
+
+(* in every reachable state the lazily filled caches _bandwidth_inv_ / _normkernels_ are empty or
+   hold what the CURRENT fit determines *)
+Theorem C17_cache_coherent :
+  forall (P G S CI CN Qy O : Type) (fitf : P -> G -> S) (invf : S -> CI) (nkf : S -> CN)
+         (needs_nk : S -> Qy -> bool) (scoref : P -> S -> CI -> CN -> Qy -> O) (peekf : S -> O)
+         (p : P) (ops : seq (@kop P G Qy)),
+    coherent invf nkf (krun fitf invf nkf needs_nk scoref peekf (kinit p) ops).1.
+Proof. exact reachable_coherent. Qed.
+Print Assumptions C17_cache_coherent.
+
+(* after ANY history, score_samples answers from the parameters in force, the LAST fit and the
+   inverse / normalisation belonging to that fit (never from earlier fits, queries or caches);
+   on an object that was never fitted it raises (None) *)
+Theorem C17_score_after_history :
+  forall (P G S CI CN Qy O : Type) (fitf : P -> G -> S) (invf : S -> CI) (nkf : S -> CN)
+         (needs_nk : S -> Qy -> bool) (scoref : P -> S -> CI -> CN -> Qy -> O) (peekf : S -> O)
+         (p0 : P) (h : seq (@kop P G Qy)) (q : Qy),
+    (kstep fitf invf nkf needs_nk scoref peekf
+           (krun fitf invf nkf needs_nk scoref peekf (kinit p0) h).1 (OScore q)).2 =
+    let pf := last_fit fitf p0 None h in
+    omap (fun f => scoref pf.1 f (invf f) (nkf f) q) pf.2.
+Proof. exact score_after_history. Qed.
+Print Assumptions C17_score_after_history.
+
+(* re-fitting an object is fitting a fresh object constructed with the parameters in force: the
+   complete states coincide, so everything observable afterwards (any continuation h') coincides *)
+Theorem C17_refit_is_fresh_fit :
+  forall (P G S CI CN Qy O : Type) (fitf : P -> G -> S) (invf : S -> CI) (nkf : S -> CN)
+         (needs_nk : S -> Qy -> bool) (scoref : P -> S -> CI -> CN -> Qy -> O) (peekf : S -> O)
+         (p0 : P) (h : seq (@kop P G Qy)) (g : G) (h' : seq (@kop P G Qy)),
+    let run := krun fitf invf nkf needs_nk scoref peekf in
+    let s := (run (kinit p0) h).1 in
+    run (kinit p0) (h ++ OFit g :: h') =
+    ((run (kinit (k_pars s)) (OFit g :: h')).1,
+     (run (kinit p0) h).2 ++ (run (kinit (k_pars s)) (OFit g :: h')).2).
+Proof. exact refit_is_fresh_fit. Qed.
+Print Assumptions C17_refit_is_fresh_fit.
+
+(* the instance with the routines of Model/SparseKDEA.v over a real closed field: after ANY history
+   whose last fit produced f under parameters p, score_samples(q) is, query by query, the logarithm
+   of the documented mixture of THAT fit (C17_mixture_formula), and score is the model's score *)
+Theorem C17_history_mixture :
+  forall (F : rcfType) (fexp flog frnd : F -> F),
+    (forall a b : F, fexp (a + b) = fexp a * fexp b) ->
+    (forall a : F, 0 < fexp a) ->
+    (forall a : F, 0 < a -> fexp (flog a) = a) ->
+    (forall a : F, flog (fexp a) = a) ->
+    let N := rops fexp flog frnd in
+    forall (Gt : Type) (fitf : kpars N -> Gt -> kfit N) (invf : kfit N -> seq (seq (seq F)))
+           (nkf : kfit N -> seq F) (p0 : kpars N) (h : seq (@kop (kpars N) Gt (seq (seq F))))
+           (q : seq (seq F)) (p : kpars N) (f : kfit N),
+    last_fit fitf p0 None h = (p, Some f) ->
+    (forall i : nat, 0 <= List.nth i (kp_w N p) 0) ->
+    (forall j : nat, 0 <= List.nth j (kf_W N f) 0) ->
+    0 < \sum_(v <- kf_W N f) v ->
+    (kstep fitf invf nkf (@kde_needs_nk N) (@kde_scoref N) (@kde_peekf N)
+           (krun fitf invf nkf (@kde_needs_nk N) (@kde_scoref N) (@kde_peekf N) (kinit p0) h).1
+           (OScore q)).2
+    = Some (@KScores N (List.map (log_mixture invf nkf p f) q)
+              (score N (kp_cell N p) (kf_G N f) (kp_D N p) (kp_w N p) (kf_W N f) (kf_mem N f)
+                     (invf f) (nkf f) (kp_dim N p) q)).
+Proof. exact history_mixture. Qed.
+Print Assumptions C17_history_mixture.
+
+(* non-vacuity of the machine: fit(1), score(5), fit(2), score(7) on an object with parameter 10;
+   a fit is p + g, the caches are 2 * fit and 3 * fit.  The second score shows the caches of the
+   SECOND fit (24, 36), not those filled after the first one (22, 33). *)
+Example C17_nonvacuous_history :
+  (krun (fun p g : nat => (p + g)%N) (fun f => (2 * f)%N) (fun f => (3 * f)%N) (fun _ _ : nat => true)
+        (fun p f ci cn q : nat => [:: p; f; ci; cn; q]) (fun f => [:: f])
+        (kinit 10%N) [:: OFit 1%N; OScore 5%N; OFit 2%N; OPeek; OScore 7%N]).2
+  = [:: None; Some [:: 10; 11; 22; 33; 5]%N; None; Some [:: 12%N]; Some [:: 10; 12; 24; 36; 7]%N].
+Proof. by vm_compute. Qed.
